@@ -281,6 +281,13 @@ def check_sessions(ck, scenarios):
                                    {'class': 'marker-lost', 'outcome': 'wrong-text'})
                 if res.crash:
                     crashed = True
+                    if sess['plan']:
+                        if res.starts:
+                            ck.oracle_fail('plan_no_start', inp, {'starts': [r['args'] for r in res.starts]})
+                        if before != after:
+                            ck.oracle_fail('plan_no_write', inp,
+                                           {'before': None if before is None else len(before),
+                                            'after': None if after is None else len(after)})
                     if any(not pct_free(info, r) for r in runs) and \
                             any('cmdline_for_next_invocation' in fr for fr in res.crash[2]):
                         ck.oracle_fail('command_exact', inp, {'observed': 'crash:' + res.crash[0], 'where': 'session',
